@@ -550,6 +550,16 @@ class ExprMixin(object):
             ca, cb = self.const_int(a), self.const_int(b)
             if ca is not None and cb is not None and cb >= 0:
                 return V(mkI(ca ** cb), parse_spec('int'))
+            if ca is not None and 0 < ca <= 16:
+                # small constant base, symbolic exponent: exact for exponents 0..128, otherwise unsupported (TypeError exit)
+                e = Val.i(b.t)
+                self.raise_exit(st, TypeError, Not(Val.is_I(b.t)), 0)
+                self.raise_exit(st, OverflowError, Or(e < 0, e > 128), 0)
+                self.trust('constant ** symbolic exponent is exact for exponents 0..128 (larger ones are reported as OverflowError)')
+                res = z3.IntVal(ca ** 128)
+                for k in range(127, -1, -1):
+                    res = z3.If(e == k, z3.IntVal(ca ** k), res)
+                return V(mkI(res), parse_spec('int'))
             raise EngineError('symbolic power')
         if isinstance(op, pyast.Mod):
             cb = self.const_int(b)
@@ -855,10 +865,11 @@ class ExprMixin(object):
         b = norm(hi, n)
         ln = z3.If(b > a, b - a, z3.IntVal(0))
         nr = self.new_ref(st, list)
-        old = z3.Select(self.harr(st, '$ELEM'), r)
-        j = z3.Int('j!slice')
+        # the slice is a window into the same element array (a copy in python; sound as long as neither list is
+        # stored into afterwards - stores go through $ELEM[ref], which is a separate copy per list reference)
         st.heap['$LEN'] = z3.Store(self.harr(st, '$LEN'), nr, ln)
-        st.heap['$ELEM'] = z3.Store(self.harr(st, '$ELEM'), nr, z3.Lambda([j], z3.Select(old, j + a)))
+        st.heap['$ELEM'] = z3.Store(self.harr(st, '$ELEM'), nr, z3.Select(self.harr(st, '$ELEM'), r))
+        st.heap['$OFF'] = z3.Store(self.harr(st, '$OFF'), nr, self.list_off(st, r) + a)
         return V(mkR(nr), TypeSpec('list', (), False, base.hint.elem))
 
     def pydict_get(self, st, d, key, default, line=0, subscript=False):
@@ -872,10 +883,44 @@ class ExprMixin(object):
                 return self.lift(None)
             return default if default is not None else self.lift(None)
         items = list(d.items())
+        conds = [self.dict_key_match(st, self.lift(k), key) for k, _ in items]
         if subscript:
-            self.raise_exit(st, KeyError, Not(Or(*[key.t == self.lift(k).t for k, _ in items])), line)
+            self.raise_exit(st, KeyError, Not(Or(*conds)), line)
         out = default if default is not None else self.lift(None)
-        for k, v in reversed(items):
+        for (k, v), cnd in reversed(list(zip(items, conds))):
             lv = self.lift(v)
-            out = self.merge_values(key.t == self.lift(k).t, lv, out)
+            out = self.merge_values(cnd, lv, out)
         return out
+
+    def dict_key_match(self, st, stored, key):
+        """python dict lookup: same hash, then identity or stored == key.  hash() of a tuple of fields is modelled
+        as injective (equal hashes <=> equal field tuples)."""
+        if not (isinstance(stored, V) and isinstance(key, V)):
+            return z3.BoolVal(False)
+        hf = self.find_special(stored, '__hash__')
+        if hf is None or isinstance(hf, list):
+            return stored.t == key.t
+        fn = inspect.unwrap(hf)
+        from .calls import func_ast
+        node = func_ast(fn)
+        # supported shape:  return hash(<expr over self>)
+        body = [b for b in node.body if not (isinstance(b, pyast.Expr) and isinstance(b.value, pyast.Constant))]
+        if not (len(body) == 1 and isinstance(body[0], pyast.Return) and isinstance(body[0].value, pyast.Call)
+                and getattr(body[0].value.func, 'id', '') == 'hash' and len(body[0].value.args) == 1):
+            raise EngineError('__hash__ of %s is not of the shape `return hash(expr)`' % fn.__qualname__)
+        arg = body[0].value.args[0]
+        self.trust('dict lookup with object keys: hash() of the key tuple is injective')
+        mod = inspect.getmodule(fn)
+
+        def hashed(obj):
+            s2 = State({node.args.args[0].arg: obj}, dict(st.heap), st.guard)
+            from .engine import Frame
+            fr = Frame('<hash>', mod, None)
+            self.frames.append(fr)
+            try:
+                return self.eval(s2, arg)
+            finally:
+                self.frames.pop()
+        h1, h2 = hashed(stored), hashed(key)
+        same_hash = self.py_eq(st, h1, h2)
+        return And(same_hash, Or(stored.t == key.t, self.py_eq(st, stored, key)))
